@@ -688,9 +688,9 @@ Proof. intros E L. split; auto. exists []. repeat split; auto; constructor. Qed.
 Lemma took_mono s e r s' : Inv s -> pend s = e :: r -> Took s e r s' -> Mono s s'.
 Proof.
   intros HI Hp T. pose proof (inv_ge _ HI) as G. rewrite Hp in G. inversion G; subst.
-  rewrite (took_clock _ _ _ _ T). split; auto.
+  unfold Mono. rewrite (took_clock _ _ _ _ T). split; auto.
   exists [(e, ev_time e)]. rewrite (took_trace _ _ _ _ T). repeat split.
-  - constructor; [cbn; lia|constructor].
+  - constructor; [cbn [snd]; lia|constructor].
   - constructor; constructor.
 Qed.
 
